@@ -214,49 +214,51 @@ func c11RunSeq(p *c11Pool, ops []c11Op, o *vh.Out) {
 				o.Obs("failed_ops", 1)
 			}
 		case "request":
-			rec := sys.call("GET", "/r", "10.4.4.4:1", nil, nil)
-			by := servedBy(rec)
-			elig := 0
-			for _, mem := range m.m {
-				if mem.Healthy {
-					elig++
-				}
-			}
-			if elig == 0 {
-				if rec.Code != 503 {
-					fail("request-empty-pool", fmt.Sprintf("no eligible backend but the request got %d from %q", rec.Code, by))
-					return
-				}
-				continue
-			}
-			if rec.Code != 200 || by == "" {
-				fail("request-failed", fmt.Sprintf("request got %d %q although %d backend(s) are listed and healthy", rec.Code, trunc(rec.Body.String(), 50), elig))
-				return
-			}
-			// the server that answered is identified by its address; several names may be configured with it
-			name := strings.SplitN(by, "@", 2)[0]
-			listed, healthy := 0, 0
-			for _, mem := range m.m {
-				if mem.Addr == p.bes[by].URL {
-					listed++
+			for _, client := range []string{"10.4.4.4:1", "10.4.4.5:1", "172.16.9.1:1", "192.168.3.77:1", "10.200.1.9:1", "8.8.8.8:1"} {
+				rec := sys.call("GET", "/r", client, nil, nil)
+				by := servedBy(rec)
+				elig := 0
+				for _, mem := range m.m {
 					if mem.Healthy {
-						healthy++
+						elig++
 					}
 				}
+				if elig == 0 {
+					if rec.Code != 503 {
+						fail("request-empty-pool", fmt.Sprintf("no eligible backend but the request got %d from %q", rec.Code, by))
+						return
+					}
+					continue
+				}
+				if rec.Code != 200 || by == "" {
+					fail("request-failed", fmt.Sprintf("request got %d %q although %d backend(s) are listed and healthy", rec.Code, trunc(rec.Body.String(), 50), elig))
+					return
+				}
+				// the server that answered is identified by its address; several names may be configured with it
+				name := strings.SplitN(by, "@", 2)[0]
+				listed, healthy := 0, 0
+				for _, mem := range m.m {
+					if mem.Addr == p.bes[by].URL {
+						listed++
+						if mem.Healthy {
+							healthy++
+						}
+					}
+				}
+				_, nameListed := m.m[name]
+				switch {
+				case listed == 0 && nameListed:
+					fail("served-by-old-address", fmt.Sprintf("request served by %s but %s is configured with the other address", by, name))
+					return
+				case listed == 0:
+					fail("served-by-unlisted", fmt.Sprintf("request served by %s, whose address no backend in the pool has", by))
+					return
+				case healthy == 0:
+					fail("served-by-ejected", fmt.Sprintf("request served by %s, every backend with that address is ejected", by))
+					return
+				}
+				o.Obs("requests_served", 1)
 			}
-			_, nameListed := m.m[name]
-			switch {
-			case listed == 0 && nameListed:
-				fail("served-by-old-address", fmt.Sprintf("request served by %s but %s is configured with the other address", by, name))
-				return
-			case listed == 0:
-				fail("served-by-unlisted", fmt.Sprintf("request served by %s, whose address no backend in the pool has", by))
-				return
-			case healthy == 0:
-				fail("served-by-ejected", fmt.Sprintf("request served by %s, every backend with that address is ejected", by))
-				return
-			}
-			o.Obs("requests_served", 1)
 		}
 		// the listing equals the model after every step
 		infos, err := listBackends(adm)
